@@ -63,3 +63,82 @@ def coq_registration(r):
 
 def coq_registrations(hir):
     return "[" + ";\n    ".join(coq_registration(r) for r in hir["registrations"]) + "]"
+
+
+# ------------------------------------------------------------------ sequences of generations in one process
+
+def seq_router_leg(res, prop, rng, bases, tier, explicit=None):
+    """Edits of a base project generated back to back in ONE process (seqleg) with `spec-and-routes`; the
+    translation obligation RouterGate.router_ok is evaluated on the routes file of every accepted edit, both the
+    one a fresh process wrote and the one the shared process wrote.  Returns statistics for the evidence."""
+    import seqleg
+    import tempfile
+    stats = {"sequences": 0, "steps": 0, "routes_files_translated": 0, "obligation_failures": 0, "byte_differences": 0}
+    rows, meta, tmpfiles = [], [], []
+    tmpdir = os.path.join(WORK, prop, "seq_files")
+    shutil.rmtree(tmpdir, ignore_errors=True)
+    os.makedirs(tmpdir, exist_ok=True)
+    allsteps = []
+    seqs = explicit if explicit is not None else [seqleg.edits(rng, base) for base in bases]
+    plan = []
+    for bi, seq in enumerate(seqs):
+        e = ENGINES[(bi + (0 if tier == "quick" else 2)) % len(ENGINES)]
+        if explicit is not None and isinstance(seq, dict):
+            e, seq = seq["engine"], seq["sequence"]
+        plan.append((bi, e, seq))
+    import concurrent.futures
+    with concurrent.futures.ThreadPoolExecutor(max_workers=4) as ex:
+        ran = list(ex.map(lambda x: seqleg.run_sequence(prop, "r%d" % x[0], x[2], engine=x[1]), plan))
+    for (bi, e, seq), steps in zip(plan, ran):
+        stats["sequences"] += 1
+        stats["steps"] += len(steps)
+        stats["byte_differences"] += len(seqleg.differences(steps, "routes"))
+        allsteps.append((e, steps))
+        for si, st in enumerate(steps):
+            if st["fresh"]["exit"] != 0:
+                continue
+            for which in ("fresh", "inproc"):
+                data = st[which]["routes"]
+                path = os.path.join(tmpdir, "s%d_%d_%s.go" % (bi, si, which))
+                if data is not None:
+                    with open(path, "wb") as f:
+                        f.write(data)
+                    tmpfiles.append(path)
+                meta.append((bi, si, which, path if data is not None else None))
+    hir = implrun("hir", {"files": tmpfiles}) if tmpfiles else []
+    by_file = {h["file"]: h for h in hir}
+    failing = []
+    for i, (bi, si, which, path) in enumerate(meta):
+        e, steps = allsteps[bi]
+        h = by_file.get(path) if path else None
+        if h is None or h["parse_error"]:
+            failing.append((i, "no routes file" if path is None else "routes file does not parse"))
+            continue
+        stats["routes_files_translated"] += 1
+        rows.append("(%d, %s,\n   %s)" % (i, P.coq_project(steps[si]["project"]), coq_registrations(h)))
+    SH = 10
+    for lo in range(0, len(rows), SH):
+        body = ("From Gleece Require Import Base.Bytes Model.Project Model.Spec Model.Security Model.RouterGate.\n"
+                "From Coq Require Import String.\n"
+                "Definition cases : list (nat * project * list registration) := [\n" + ";\n".join(rows[lo:lo + SH]) + "].\n"
+                "Definition failing := Eval vm_compute in map (fun c => fst (fst c)) "
+                "(filter (fun c => negb (router_ok (snd (fst c)) (snd c))) cases).\nPrint failing.\n")
+        out = run_coq_file(prop, "seq_obligations_%d" % lo, body, timeout=900)
+        failing += [(i, "router_ok is false") for i in parse_nat_list(out, "failing")]
+    stats["obligation_failures"] = len(failing)
+    for (i, why) in failing[:2]:
+        bi, si, which, path = meta[i]
+        e, steps = allsteps[bi]
+        h = by_file.get(path) if path else None
+        res.violation({"kind": "property-fails-on-implementation",
+                       "leg": "sequence of generations (%s)" % ("fresh process, generate spec-and-routes" if which == "fresh"
+                                                                else "one process, library entry point cmd.GenerateSpecAndRoutes"),
+                       "engine": e, "input": {"sequence": seqleg.describe_sequence(steps, si)},
+                       "failing_step": si, "edit": steps[si]["label"], "why": why,
+                       "translated_registrations": [{"verb": r["verb"], "url": r["url_lit"], "op": r["op_id"], "alts": r["alts"],
+                                                     "gate_ok": r["gate_ok"]} for r in (h["registrations"] if h else [])],
+                       "claim": "the routes file written for the project on disk registers exactly its annotated methods, each gated "
+                                "by its effective security (RouterGate.router_ok), whatever was generated earlier in the same "
+                                "process and whichever generate command wrote it"})
+    shutil.rmtree(tmpdir, ignore_errors=True)
+    return stats
